@@ -4,6 +4,8 @@ import (
 	"context"
 	"net/http"
 	"net/url"
+
+	"google.golang.org/genproto/googleapis/api/annotations"
 )
 
 // passBackend records the request object it was given and answers with a fixed response.
@@ -62,7 +64,17 @@ func hC13PassThrough() {
 	if cfg.client == cfConnectGet {
 		cfg.idem, cfg.hasIdem = 1, true
 	}
-	unmatched := verifChoose("unmatched", 2) == 1
+	// 0: matched (pass-through); 1: path matches nothing; 2: the path names a configured method, but the service
+	// only targets REST and the method has no HTTP rule, so it cannot be served ("late" not-found, decided after
+	// the request's headers have been picked apart)
+	unmatchedMode := verifChoose("unmatched", 3)
+	if unmatchedMode == 2 {
+		if cfg.client == cfREST {
+			return
+		}
+		cfg.svcProtos = []Protocol{ProtocolREST}
+	}
+	unmatched := unmatchedMode != 0
 	pb := &passBackend{}
 	unk := &passBackend{}
 	svc := newFakeService(pipeSvc)
@@ -71,7 +83,16 @@ func hC13PassThrough() {
 	if cfg.svcComp {
 		fc.compressors = []string{CompressionGzip}
 	}
-	tr, err := newFakeTranscoder(svc, pb, fc, pipeRules(), unk)
+	rules := pipeRules()
+	if unmatchedMode == 2 {
+		// (a REST-only service must have at least one method with a rule to be accepted at all)
+		svc.addMethod("Other", fkUnary, 0, false)
+		rules = []*annotations.HttpRule{{Selector: pipeSvc + ".Other", Pattern: &annotations.HttpRule_Get{Get: "/other"}}}
+	}
+	tr, err := newFakeTranscoder(svc, pb, fc, rules, unk)
+	if err != nil {
+		verifObsStr("config-error", err.Error())
+	}
 	verifAssert(err == nil, "configuration accepted")
 	if err != nil {
 		return
@@ -101,7 +122,7 @@ func hC13PassThrough() {
 	if req.ContentLength >= 0 {
 		req.Header.Set("Content-Length", "7")
 	}
-	if unmatched {
+	if unmatchedMode == 1 {
 		req.URL.Path = "/nope/" + string(nondetBytes("p", 1))
 	}
 	wantHdr := req.Header.Clone()
